@@ -24,7 +24,7 @@ struct Subst {
 
 impl Subst {
    fn name(&mut self, x: &str) -> String {
-      if x.starts_with('$') {
+      if x.starts_with('$') && (self.params.contains_key(x) || !self.locals.contains_key(x)) {
          match self.params.get(x) {
             Some(Sub::Ident(i)) => i.clone(),
             Some(Sub::Expr(Expr::Var(v))) => v.clone(),
@@ -33,6 +33,7 @@ impl Subst {
       } else {
          let tag = &self.fresh_tag;
          self.locals.entry(x.to_string()).or_insert_with(|| format!("{x}{tag}")).clone()
+         // (with an empty tag this is the identity for names without an explicit mapping)
       }
    }
    fn rel(&self, r: &str) -> String {
@@ -48,7 +49,7 @@ impl Subst {
    fn expr(&mut self, e: &Expr) -> Expr {
       let b = |s: &mut Self, e: &Expr| Box::new(s.expr(e));
       match e {
-         Expr::Var(x) if x.starts_with("$$") => match self.params.get(x) {
+         Expr::Var(x) if x.starts_with("$$") && !self.locals.contains_key(x) => match self.params.get(x) {
             Some(Sub::Expr(e)) => e.clone(),
             other => panic!("expr parameter {x} bound to {other:?}"),
          },
@@ -163,6 +164,10 @@ impl Subst {
 }
 
 fn subst_for(def: &MacroDef, args: &[MacroArg], counter: &mut usize) -> Subst {
+   subst_for_mode(def, args, counter, true)
+}
+
+fn subst_for_mode(def: &MacroDef, args: &[MacroArg], counter: &mut usize, hygienic: bool) -> Subst {
    assert_eq!(def.params.len(), args.len(), "macro {} arity", def.name);
    let mut params = BTreeMap::new();
    for (p, a) in def.params.iter().zip(args.iter()) {
@@ -175,7 +180,8 @@ fn subst_for(def: &MacroDef, args: &[MacroArg], counter: &mut usize) -> Subst {
       }
    }
    *counter += 1;
-   Subst { params, locals: BTreeMap::new(), fresh_tag: format!("{MACRO_LOCAL_MARK}{}", *counter) }
+   // non-hygienic mode (used only to tell whether a case can distinguish capture from non-capture): locals keep their names
+   Subst { params, locals: BTreeMap::new(), fresh_tag: if hygienic { format!("{MACRO_LOCAL_MARK}{}", *counter) } else { String::new() } }
 }
 
 const MAX_MACRO_DEPTH: usize = 50;
@@ -230,6 +236,611 @@ pub fn expand_macros(prog: &Program) -> Program {
       .map(|r| Rule {
          heads: expand_heads_depth(&r.heads, prog, &mut counter, 0),
          body: expand_items_depth(&r.body, prog, &mut counter, 0),
+      })
+      .collect();
+   Program { rels: prog.rels.clone(), rules, macros: vec![] }
+}
+
+// ---------------------------------------------------------------------------------------------------
+// C06: reordering and renaming
+
+use crate::rng::Src;
+use std::collections::BTreeSet;
+
+pub fn expr_vars_pub(e: &Expr, out: &mut BTreeSet<String>) { expr_vars(e, out) }
+
+fn expr_vars(e: &Expr, out: &mut BTreeSet<String>) {
+   match e {
+      Expr::Var(x) => {
+         out.insert(x.clone());
+      },
+      Expr::Int(..) | Expr::Str(_) | Expr::Bool(_) | Expr::None_(_) | Expr::CTop | Expr::CBot => {},
+      Expr::AddMod(a, _, _)
+      | Expr::Some_(a)
+      | Expr::Proj(a, _)
+      | Expr::DualOf(a)
+      | Expr::UnDual(a)
+      | Expr::SetSingle(a)
+      | Expr::SetLenGe(a, _)
+      | Expr::BSetSingle(a)
+      | Expr::CConst(a)
+      | Expr::ProdFst(a)
+      | Expr::Cast(a, _)
+      | Expr::Not(a) => expr_vars(a, out),
+      Expr::SatAdd(a, b, _)
+      | Expr::Min(a, b)
+      | Expr::Max(a, b)
+      | Expr::SetUnion(a, b)
+      | Expr::SetContains(a, b)
+      | Expr::ProdOf(a, b)
+      | Expr::Cmp(_, a, b)
+      | Expr::And(a, b)
+      | Expr::Or(a, b) => {
+         expr_vars(a, out);
+         expr_vars(b, out);
+      },
+      Expr::Tup(es) => es.iter().for_each(|e| expr_vars(e, out)),
+   }
+}
+
+fn pat_vars(p: &Pat, out: &mut BTreeSet<String>) {
+   match p {
+      Pat::Var(x) => {
+         out.insert(x.clone());
+      },
+      Pat::Wild | Pat::None_ | Pat::Lit(_) => {},
+      Pat::Some_(p) | Pat::Dual(p) | Pat::CConst(p) => pat_vars(p, out),
+      Pat::Tup(ps) => ps.iter().for_each(|p| pat_vars(p, out)),
+      Pat::Bind(x, p) => {
+         out.insert(x.clone());
+         pat_vars(p, out);
+      },
+   }
+}
+
+/// Variable roles of one body item: `needs` must be bound before the item, `hard` are bound by the item through a
+/// binder that may not see an earlier occurrence (pattern, let, if-let, for, aggregate result), `soft` are plain clause
+/// variables (bind or join).
+#[derive(Default, Debug, Clone)]
+pub struct Roles {
+   pub needs: BTreeSet<String>,
+   pub hard: BTreeSet<String>,
+   pub soft: BTreeSet<String>,
+}
+
+fn cond_roles(c: &Cond, r: &mut Roles, local: &BTreeSet<String>) {
+   let mut add_needs = |e: &Expr, r: &mut Roles| {
+      let mut v = BTreeSet::new();
+      expr_vars(e, &mut v);
+      for x in v {
+         if !local.contains(&x) && !r.hard.contains(&x) && !r.soft.contains(&x) {
+            r.needs.insert(x);
+         }
+      }
+   };
+   match c {
+      Cond::If(e) => add_needs(e, r),
+      Cond::IfLet(p, e) | Cond::Let(p, e) => {
+         add_needs(e, r);
+         pat_vars(p, &mut r.hard);
+      },
+   }
+}
+
+pub fn item_roles(it: &BodyItem) -> Roles {
+   let mut r = Roles::default();
+   match it {
+      BodyItem::Clause { args, conds, .. } => {
+         for a in args {
+            match a {
+               Arg::Var(x) => {
+                  r.soft.insert(x.clone());
+               },
+               Arg::Pat(p) => pat_vars(p, &mut r.hard),
+               _ => {},
+            }
+         }
+         for a in args {
+            if let Arg::Expr(e) = a {
+               let mut v = BTreeSet::new();
+               expr_vars(e, &mut v);
+               for x in v {
+                  if !r.soft.contains(&x) {
+                     r.needs.insert(x);
+                  }
+               }
+            }
+         }
+         let empty = BTreeSet::new();
+         for c in conds {
+            cond_roles(c, &mut r, &empty);
+         }
+      },
+      BodyItem::Cond(c) => cond_roles(c, &mut r, &BTreeSet::new()),
+      BodyItem::For { pat, iter } => {
+         let es: Vec<&Expr> = match iter {
+            IterExpr::Range(a, b) => vec![a, b],
+            IterExpr::Array(es) | IterExpr::VecIter(es) => es.iter().collect(),
+         };
+         for e in es {
+            expr_vars(e, &mut r.needs);
+         }
+         pat_vars(pat, &mut r.hard);
+      },
+      BodyItem::Agg { pat, bound, args, .. } => {
+         for a in args {
+            match a {
+               Arg::Var(x) if !bound.contains(x) => {
+                  r.needs.insert(x.clone());
+               },
+               Arg::Expr(e) => expr_vars(e, &mut r.needs),
+               _ => {},
+            }
+         }
+         pat_vars(pat, &mut r.hard);
+      },
+      BodyItem::Neg { args, .. } =>
+         for a in args {
+            match a {
+               Arg::Var(x) => {
+                  r.needs.insert(x.clone());
+               },
+               Arg::Expr(e) => expr_vars(e, &mut r.needs),
+               _ => {},
+            }
+         },
+      BodyItem::Disj(ds) => {
+         // conservative: everything mentioned is "needed or bound here"; resolved by the caller against the
+         // original order (variables bound before the item are needs, the others are hard binders)
+         for d in ds {
+            for i in d {
+               let ir = item_roles(i);
+               r.soft.extend(ir.needs);
+               r.soft.extend(ir.hard);
+               r.soft.extend(ir.soft);
+            }
+         }
+      },
+      BodyItem::MacroCall { args, .. } =>
+         for a in args {
+            if a.is_ident {
+               r.soft.insert(a.ident.clone());
+            } else if let Some(e) = &a.expr {
+               expr_vars(e, &mut r.soft);
+            }
+         },
+   }
+   r
+}
+
+/// A random admissible permutation of the body items (every expression still follows the items binding its
+/// variables; binders that cannot see earlier occurrences stay first among the items mentioning their variables).
+pub fn permute_body<R: Src>(r: &mut R, body: &[BodyItem]) -> Vec<BodyItem> {
+   let n = body.len();
+   let mut roles: Vec<Roles> = body.iter().map(item_roles).collect();
+   // resolve Disj / MacroCall units against the original order
+   let mut bound: BTreeSet<String> = BTreeSet::new();
+   for (i, it) in body.iter().enumerate() {
+      if matches!(it, BodyItem::Disj(_) | BodyItem::MacroCall { .. }) {
+         let all = std::mem::take(&mut roles[i].soft);
+         for x in all {
+            if bound.contains(&x) { roles[i].needs.insert(x) } else { roles[i].hard.insert(x) };
+         }
+      }
+      bound.extend(roles[i].hard.iter().cloned());
+      bound.extend(roles[i].soft.iter().cloned());
+   }
+   // hard binder of each variable
+   let mut binder: BTreeMap<String, usize> = BTreeMap::new();
+   for (i, ro) in roles.iter().enumerate() {
+      for x in &ro.hard {
+         binder.entry(x.clone()).or_insert(i);
+      }
+   }
+   let mut placed: Vec<usize> = vec![];
+   let mut placed_set: BTreeSet<usize> = BTreeSet::new();
+   let mut bound: BTreeSet<String> = BTreeSet::new();
+   while placed.len() < n {
+      let ready: Vec<usize> = (0..n)
+         .filter(|i| !placed_set.contains(i))
+         .filter(|&i| {
+            let ro = &roles[i];
+            ro.needs.iter().all(|x| bound.contains(x))
+               && ro.soft.iter().chain(ro.needs.iter()).all(|x| match binder.get(x) {
+                  Some(&b) => b == i || placed_set.contains(&b),
+                  None => true,
+               })
+         })
+         .collect();
+      if ready.is_empty() {
+         // cannot happen (the original order is a witness); fall back to it
+         return body.to_vec();
+      }
+      let pick = *r.pick(&ready);
+      placed.push(pick);
+      placed_set.insert(pick);
+      bound.extend(roles[pick].hard.iter().cloned());
+      bound.extend(roles[pick].soft.iter().cloned());
+   }
+   placed.into_iter().map(|i| body[i].clone()).collect()
+}
+
+/// Applies a variable renaming (within one rule) and a relation renaming.
+pub fn rename_rule(rule: &Rule, vars: &BTreeMap<String, String>, rels: &BTreeMap<String, String>) -> Rule {
+   let mut s = Subst { params: BTreeMap::new(), locals: vars.clone(), fresh_tag: String::new() };
+   let ren_rel = |r: &String| rels.get(r).cloned().unwrap_or_else(|| r.clone());
+   fn items(s: &mut Subst, its: &[BodyItem], ren_rel: &dyn Fn(&String) -> String) -> Vec<BodyItem> {
+      its.iter()
+         .map(|it| {
+            let it = s.item(it);
+            match it {
+               BodyItem::Clause { rel, args, conds } => BodyItem::Clause { rel: ren_rel(&rel), args, conds },
+               BodyItem::Agg { pat, agg, bound, rel, args } => BodyItem::Agg { pat, agg, bound, rel: ren_rel(&rel), args },
+               BodyItem::Neg { rel, args } => BodyItem::Neg { rel: ren_rel(&rel), args },
+               BodyItem::Disj(ds) => {
+                  // the clauses inside were already variable-renamed by `item`; rename relations recursively
+                  fn rr(its: Vec<BodyItem>, ren_rel: &dyn Fn(&String) -> String) -> Vec<BodyItem> {
+                     its.into_iter()
+                        .map(|it| match it {
+                           BodyItem::Clause { rel, args, conds } => BodyItem::Clause { rel: ren_rel(&rel), args, conds },
+                           BodyItem::Agg { pat, agg, bound, rel, args } =>
+                              BodyItem::Agg { pat, agg, bound, rel: ren_rel(&rel), args },
+                           BodyItem::Neg { rel, args } => BodyItem::Neg { rel: ren_rel(&rel), args },
+                           BodyItem::Disj(ds) => BodyItem::Disj(ds.into_iter().map(|d| rr(d, ren_rel)).collect()),
+                           other => other,
+                        })
+                        .collect()
+                  }
+                  BodyItem::Disj(ds.into_iter().map(|d| rr(d, ren_rel)).collect())
+               },
+               other => other,
+            }
+         })
+         .collect()
+   }
+   let body = items(&mut s, &rule.body, &ren_rel);
+   let heads = rule
+      .heads
+      .iter()
+      .map(|h| match s.head(h) {
+         HeadItem::Clause { rel, args } => HeadItem::Clause { rel: ren_rel(&rel), args },
+         other => other,
+      })
+      .collect();
+   Rule { heads, body }
+}
+
+fn rule_all_vars(rule: &Rule) -> BTreeSet<String> {
+   let mut out = BTreeSet::new();
+   fn items(its: &[BodyItem], out: &mut BTreeSet<String>) {
+      for it in its {
+         let ro = item_roles(it);
+         out.extend(ro.needs);
+         out.extend(ro.hard);
+         out.extend(ro.soft);
+         if let BodyItem::Agg { bound, .. } = it {
+            out.extend(bound.iter().cloned());
+         }
+      }
+   }
+   items(&rule.body, &mut out);
+   for (_, args) in rule.head_clauses() {
+      for a in args {
+         expr_vars(a, &mut out);
+      }
+   }
+   out
+}
+
+/// identifiers that look generated / internal without having a reserved shape
+pub const ODD_NAMES: &[&str] = &[
+   "row", "val", "new_row", "matching", "changed", "cl1", "joined", "lattice_key", "existing", "hash", "lock", "scope",
+   "index", "indices", "total", "delta", "newv", "arg_pattern", "expr_replaced", "x_1a", "tuple2", "rel_ind2", "this",
+   "me", "it", "acc", "agg_args", "aggregated", "start_time", "scc", "iter", "key", "value", "vv", "kk", "xs", "ys",
+];
+
+pub const ODD_REL_NAMES: &[&str] = &[
+   "rel", "relation_a", "lattice_b", "indices", "total", "delta", "newr", "field", "row", "rows", "self_rel", "input",
+   "output", "result", "update", "insert", "index", "mutexes", "common", "ind", "r1", "r2", "r3x", "zz", "data", "table",
+   "facts", "derived", "closure", "tmp1x",
+];
+
+#[derive(Clone, Debug)]
+pub enum Variant06 {
+   PermuteRules,
+   PermuteDecls,
+   PermuteHeads,
+   PermuteBodies,
+   Rename,
+}
+
+/// Returns the transformed program and the map variant relation name -> base relation name.
+pub fn variant06<R: Src>(r: &mut R, prog: &Program, kind: &Variant06) -> (Program, BTreeMap<String, String>) {
+   let mut p = prog.clone();
+   let mut rel_map = BTreeMap::new();
+   match kind {
+      Variant06::PermuteRules => {
+         let before = p.rules.clone();
+         for _ in 0..4 {
+            r.shuffle(&mut p.rules);
+            if p.rules != before {
+               break;
+            }
+         }
+      },
+      Variant06::PermuteDecls => {
+         r.shuffle(&mut p.rels);
+         p.rels.reverse();
+      },
+      Variant06::PermuteHeads =>
+         for rule in p.rules.iter_mut() {
+            rule.heads.reverse();
+         },
+      Variant06::PermuteBodies =>
+         for rule in p.rules.iter_mut() {
+            rule.body = permute_body(r, &rule.body);
+         },
+      Variant06::Rename => {
+         let mut rel_pool: Vec<String> = ODD_REL_NAMES.iter().map(|s| s.to_string()).collect();
+         r.shuffle(&mut rel_pool);
+         let mut fwd = BTreeMap::new();
+         let mut names: Vec<String> = vec![];
+         for d in &p.rels {
+            if !names.contains(&d.name) {
+               names.push(d.name.clone());
+            }
+         }
+         for (i, n) in names.iter().enumerate() {
+            let new = if i < rel_pool.len() { rel_pool[i].clone() } else { format!("q{}r", i) };
+            fwd.insert(n.clone(), new.clone());
+            rel_map.insert(new, n.clone());
+         }
+         for d in p.rels.iter_mut() {
+            d.name = fwd[&d.name].clone();
+         }
+         p.rules = p
+            .rules
+            .iter()
+            .map(|rule| {
+               let mut pool: Vec<String> = ODD_NAMES.iter().map(|s| s.to_string()).collect();
+               r.shuffle(&mut pool);
+               let vars: BTreeMap<String, String> = rule_all_vars(rule)
+                  .into_iter()
+                  .enumerate()
+                  .map(|(i, v)| (v, if i < pool.len() { pool[i].clone() } else { format!("w{}q", i) }))
+                  .collect();
+               rename_rule(rule, &vars, &fwd)
+            })
+            .collect();
+      },
+   }
+   (p, rel_map)
+}
+
+/// Injective renaming of the constants of an uninterpreted program (all columns i32).
+/// "big": c -> 1000 c + 7 (same type); "str": c -> "k<c>" with the column type changed to String.
+pub fn rename_consts(prog: &Program, scheme: &str) -> Program {
+   fn ex(e: &Expr, scheme: &str) -> Expr {
+      let b = |e: &Expr| Box::new(ex(e, scheme));
+      match e {
+         Expr::Int(c, Ty::I32) => match scheme {
+            "big" => Expr::Int(c * 1000 + 7, Ty::I32),
+            _ => Expr::Str(format!("k{c}")),
+         },
+         Expr::Cmp(op, a, x) => Expr::Cmp(*op, b(a), b(x)),
+         Expr::And(a, x) => Expr::And(b(a), b(x)),
+         Expr::Or(a, x) => Expr::Or(b(a), b(x)),
+         Expr::Not(a) => Expr::Not(b(a)),
+         Expr::Some_(a) => Expr::Some_(b(a)),
+         Expr::Tup(es) => Expr::Tup(es.iter().map(|e| ex(e, scheme)).collect()),
+         other => other.clone(),
+      }
+   }
+   fn arg(a: &Arg, scheme: &str) -> Arg {
+      match a {
+         Arg::Expr(e) => Arg::Expr(ex(e, scheme)),
+         other => other.clone(),
+      }
+   }
+   fn cond(c: &Cond, scheme: &str) -> Cond {
+      match c {
+         Cond::If(e) => Cond::If(ex(e, scheme)),
+         Cond::IfLet(p, e) => Cond::IfLet(p.clone(), ex(e, scheme)),
+         Cond::Let(p, e) => Cond::Let(p.clone(), ex(e, scheme)),
+      }
+   }
+   fn item(it: &BodyItem, scheme: &str) -> BodyItem {
+      match it {
+         BodyItem::Clause { rel, args, conds } => BodyItem::Clause {
+            rel: rel.clone(),
+            args: args.iter().map(|a| arg(a, scheme)).collect(),
+            conds: conds.iter().map(|c| cond(c, scheme)).collect(),
+         },
+         BodyItem::Cond(c) => BodyItem::Cond(cond(c, scheme)),
+         BodyItem::For { pat, iter } => BodyItem::For {
+            pat: pat.clone(),
+            iter: match iter {
+               IterExpr::Range(a, b) => IterExpr::Range(ex(a, scheme), ex(b, scheme)),
+               IterExpr::Array(es) => IterExpr::Array(es.iter().map(|e| ex(e, scheme)).collect()),
+               IterExpr::VecIter(es) => IterExpr::VecIter(es.iter().map(|e| ex(e, scheme)).collect()),
+            },
+         },
+         BodyItem::Neg { rel, args } => BodyItem::Neg { rel: rel.clone(), args: args.iter().map(|a| arg(a, scheme)).collect() },
+         BodyItem::Disj(ds) => BodyItem::Disj(ds.iter().map(|d| d.iter().map(|i| item(i, scheme)).collect()).collect()),
+         other => other.clone(),
+      }
+   }
+   let mut p = prog.clone();
+   if scheme == "str" {
+      for d in p.rels.iter_mut() {
+         for c in d.cols.iter_mut() {
+            assert_eq!(*c, Ty::I32, "rename_consts needs an all-i32 program");
+            *c = Ty::Str;
+         }
+      }
+   }
+   for rule in p.rules.iter_mut() {
+      rule.body = rule.body.iter().map(|i| item(i, scheme)).collect();
+      rule.heads = rule
+         .heads
+         .iter()
+         .map(|h| match h {
+            HeadItem::Clause { rel, args } => HeadItem::Clause { rel: rel.clone(), args: args.iter().map(|e| ex(e, scheme)).collect() },
+            other => other.clone(),
+         })
+         .collect();
+   }
+   p
+}
+
+// ---------------------------------------------------------------------------------------------------
+// C07: the documented core expansions, written independently of ascent_macro
+
+fn expand_disj(items: &[BodyItem]) -> Vec<Vec<BodyItem>> {
+   // one conjunction per choice of disjuncts (nested disjunctions flattened recursively)
+   let mut acc: Vec<Vec<BodyItem>> = vec![vec![]];
+   for it in items {
+      match it {
+         BodyItem::Disj(ds) => {
+            let mut alts: Vec<Vec<BodyItem>> = vec![];
+            for d in ds {
+               alts.extend(expand_disj(d));
+            }
+            let mut next = vec![];
+            for a in &acc {
+               for alt in &alts {
+                  let mut v = a.clone();
+                  v.extend(alt.iter().cloned());
+                  next.push(v);
+               }
+            }
+            acc = next;
+         },
+         other =>
+            for a in acc.iter_mut() {
+               a.push(other.clone());
+            },
+      }
+   }
+   acc
+}
+
+/// Rewrites a program into the documented core form:
+/// one rule per choice of disjuncts and per head clause; `?pattern` -> fresh variable + `if let`; `_` -> fresh variable;
+/// constant / expression argument -> fresh variable + equality test; a variable repeated inside one clause (and, when
+/// `split_joins`, also across clauses) -> fresh variable + equality test; `!r(..)` -> `agg () = not() in r(..)`.
+pub fn desugar(prog: &Program, split_joins: bool) -> Program {
+   let prog = if prog.macros.is_empty() { prog.clone() } else { expand_macros(prog) };
+   let mut counter = 0usize;
+   let mut fresh = || {
+      counter += 1;
+      format!("dz{}q", counter)
+   };
+   let mut rules = vec![];
+   for rule in &prog.rules {
+      for body in expand_disj(&rule.body) {
+         for head in &rule.heads {
+            let mut bound: BTreeSet<String> = BTreeSet::new();
+            let mut new_body = vec![];
+            for it in &body {
+               match it {
+                  BodyItem::Clause { rel, args, conds } => {
+                     let mut new_args = vec![];
+                     let mut pre_conds: Vec<Cond> = vec![];
+                     let mut eq_conds: Vec<Cond> = vec![];
+                     let mut here: BTreeSet<String> = BTreeSet::new();
+                     for a in args {
+                        match a {
+                           Arg::Var(x) => {
+                              let repeated_here = here.contains(x);
+                              let repeated_before = bound.contains(x);
+                              if repeated_here || (repeated_before && split_joins) {
+                                 let f = fresh();
+                                 eq_conds.push(Cond::If(Expr::Cmp(
+                                    CmpOp::Eq,
+                                    Box::new(Expr::Var(f.clone())),
+                                    Box::new(Expr::Var(x.clone())),
+                                 )));
+                                 new_args.push(Arg::Var(f));
+                              } else {
+                                 here.insert(x.clone());
+                                 new_args.push(a.clone());
+                              }
+                           },
+                           Arg::Wild => new_args.push(Arg::Var(fresh())),
+                           Arg::Expr(e) => {
+                              let f = fresh();
+                              eq_conds.push(Cond::If(Expr::Cmp(CmpOp::Eq, Box::new(Expr::Var(f.clone())), Box::new(e.clone()))));
+                              new_args.push(Arg::Var(f));
+                           },
+                           Arg::Pat(p) => {
+                              let f = fresh();
+                              pre_conds.push(Cond::IfLet(p.clone(), Expr::Var(f.clone())));
+                              new_args.push(Arg::Var(f));
+                           },
+                        }
+                     }
+                     let mut all_conds = pre_conds;
+                     all_conds.extend(eq_conds);
+                     all_conds.extend(conds.iter().cloned());
+                     let item = BodyItem::Clause { rel: rel.clone(), args: new_args, conds: all_conds };
+                     let ro = item_roles(&item);
+                     bound.extend(ro.hard);
+                     bound.extend(ro.soft);
+                     new_body.push(item);
+                  },
+                  BodyItem::Neg { rel, args } => {
+                     new_body.push(BodyItem::Agg {
+                        pat: Pat::Tup(vec![]),
+                        agg: Aggregator::Not,
+                        bound: vec![],
+                        rel: rel.clone(),
+                        args: args.clone(),
+                     });
+                  },
+                  other => {
+                     let ro = item_roles(other);
+                     bound.extend(ro.hard);
+                     bound.extend(ro.soft);
+                     new_body.push(other.clone());
+                  },
+               }
+            }
+            rules.push(Rule { heads: vec![head.clone()], body: new_body });
+         }
+      }
+   }
+   Program { rels: prog.rels.clone(), rules, macros: vec![] }
+}
+
+fn expand_items_unhyg(items: &[BodyItem], prog: &Program, counter: &mut usize, depth: usize) -> Vec<BodyItem> {
+   assert!(depth < MAX_MACRO_DEPTH);
+   let mut out = vec![];
+   for it in items {
+      match it {
+         BodyItem::MacroCall { name, args } => {
+            let def = prog.macros.iter().find(|m| &m.name == name).unwrap();
+            let mut s = subst_for_mode(def, args, counter, false);
+            let body: Vec<BodyItem> = def.body.iter().map(|i| s.item(i)).collect();
+            out.extend(expand_items_unhyg(&body, prog, counter, depth + 1));
+         },
+         BodyItem::Disj(ds) => out.push(BodyItem::Disj(ds.iter().map(|d| expand_items_unhyg(d, prog, counter, depth + 1)).collect())),
+         other => out.push(other.clone()),
+      }
+   }
+   out
+}
+
+/// The capturing (non-hygienic) reading of the macros: body-local identifiers keep their spelling. Only used to
+/// classify cases (does this input distinguish capture from non-capture?), never as an oracle.
+pub fn expand_macros_unhygienic(prog: &Program) -> Program {
+   let mut counter = 0usize;
+   let rules = prog
+      .rules
+      .iter()
+      .map(|r| Rule {
+         heads: expand_heads_depth(&r.heads, prog, &mut counter, 0),
+         body: expand_items_unhyg(&r.body, prog, &mut counter, 0),
       })
       .collect();
    Program { rels: prog.rels.clone(), rules, macros: vec![] }
